@@ -510,3 +510,39 @@ Fixpoint cond_shape (e : expr) : bool :=
       end
   | _ => false
   end.
+
+(* D30: `str(k): N` with an integer N outside the i64 range: the loader reads the number as a
+   double, so the text compared is the double's (e.g. 18446744073709552000), not the decimal
+   text that was written *)
+Definition bigint_str_entry (o : oracles) (k v : yaml) : bool :=
+  match key_mod o k, v with
+  | Some KStr, YInt z => negb (in_i64 z)
+  | Some KStr, YSeq l => existsb (fun m => match m with YInt z => negb (in_i64 z) | _ => false end) l
+  | _, _ => false
+  end.
+
+(* the entries excluded from the refinement theorems of C02: D27 and D30 *)
+Definition excluded_entry (o : oracles) (k v : yaml) : bool :=
+  d27_entry o k v || bigint_str_entry o k v.
+
+Definition excl_free (o : oracles) (y : yaml) : Prop :=
+  entry_exists (S (yaml_depth y)) (excluded_entry o) y = false.
+
+Definition entry_refines_excl_stmt : Prop :=
+  forall o ic k v e,
+    scalar_yaml v = true -> excluded_entry o (YStr k) v = false ->
+    parse_entry o ic (YStr k) v None [] = Ok e ->
+    exists m f, read_key o k = Some (m, f) /\
+                match m with KAll | KOf _ => False | _ => True end /\
+                forall d : doc, solve_body o e (pure_doc d) = Ok (sem_entry_scalar o ic m f v d).
+
+Definition spec_known_all (o : oracles) (y : yaml) : list N :=
+  let ids := match untag y with
+             | YMap kv => match option_map untag (ylookup key_detection kv) with
+                          | Some (YMap dkv) => map snd (raw_identifiers dkv)
+                          | _ => []
+                          end
+             | _ => []
+             end in
+  spec_known o y ++
+  (if existsb (fun v => entry_exists (S (yaml_depth v)) (bigint_str_entry o) v) ids then [30%N] else []).
